@@ -62,7 +62,7 @@ def plan(tier):
 
     def add(pl, owner, attr, extra=None, words=None):
         # two methods (static + self); where that collides (a literal shared by both), the same placement with one method
-        for meths in (U.METHODS, ("im",)):
+        for meths in ((("sm", "im"), ("im",)) if words else (U.METHODS, ("im",))):
             k[0] += 1
             m = {"k": k[0], "placement": tuple(pl), "owner": owner, "attr": tuple(attr), "methods": tuple(meths), "extra": extra}
             if words:
@@ -71,7 +71,7 @@ def plan(tier):
             if not U.collides(m):
                 mods.append(m)
                 return
-            if meths == U.METHODS:
+            if len(meths) > 1:
                 reduced.append(m)
         skipped.append(m)
 
@@ -105,7 +105,7 @@ def plan(tier):
     for w in U.word_triples():
         add(("-", "L", "-", "L"), "opaque", NONE, words=w)
     bound["reserved_word_literals"] = list(U.WORDS)
-    bound["methods_per_type"] = "sm (static) + im (self); im only where a literal shared by both methods would collide (%d modules)" % len(reduced)
+    bound["methods_per_type"] = "sm (static) + im (self) + wm (static write-out method); im only where a literal shared by both methods would collide (%d modules)" % len(reduced)
     bound["attr_variant_list"] = [U.attr_text(a) for a in attrs]
     bound["patterns"] = U.ABI_PATTERN
     return mods, skipped, bound
